@@ -56,7 +56,7 @@ Fresh(sh) ==
     CASE sh.k = "TS"  -> [ok |-> FALSE, v |-> 0, w |-> 0, inv |-> 0]
       [] sh.k = "TSS" -> [ok |-> FALSE, v |-> {}, w |-> 0, inv |-> 0]
       [] sh.k = "TSW" -> [ok |-> FALSE, q |-> <<>>, w |-> 0, inv |-> 0]
-      [] sh.k = "TSD" -> [ok |-> FALSE, ch |-> EmptyFn, grave |-> EmptyFn, pub |-> {}, w |-> 0, soft |-> 0]
+      [] sh.k = "TSD" -> [ok |-> FALSE, ch |-> EmptyFn, grave |-> EmptyFn, pub |-> {}, gpub |-> {}, w |-> 0, soft |-> 0]
       [] OTHER        -> [ok |-> FALSE, ch |-> [i \in 1..NCh(sh) |-> Fresh(ChSh(sh, i))], w |-> 0, soft |-> 0, inv |-> 0,
                           sz |-> IF IsDyn(sh) THEN 0 ELSE NCh(sh)]
 
@@ -78,7 +78,7 @@ WOf(sh, m, t) ==
 RECURSIVE NewCycle(_, _)
 NewCycle(sh, m) ==
     CASE IsLeaf(sh)   -> m
-      [] sh.k = "TSD" -> [m EXCEPT !.grave = EmptyFn, !.ch = [x \in DOMAIN m.ch |-> NewCycle(sh.el, m.ch[x])]]
+      [] sh.k = "TSD" -> [m EXCEPT !.grave = EmptyFn, !.gpub = {}, !.ch = [x \in DOMAIN m.ch |-> NewCycle(sh.el, m.ch[x])]]
       [] OTHER        -> [m EXCEPT !.ch = [i \in 1..NCh(sh) |-> NewCycle(ChSh(sh, i), m.ch[i])]]
 
 (* invalidate(): the position and its statically indexed descendants lose their value (a position without a value is
@@ -104,15 +104,18 @@ Leaf(sh, st, op, t) ==
       [] op.op = "clr" /\ sh.k = "TSS" -> W([st EXCEPT !.ok = TRUE, !.v = {}, !.w = t])
       [] op.op = "touch" -> W([st EXCEPT !.ok = TRUE, !.w = t])
       [] op.op = "clr" /\ sh.k = "TSD" ->
-             W([st EXCEPT !.ok = TRUE, !.w = t, !.ch = EmptyFn, !.pub = {},
+             W([st EXCEPT !.ok = TRUE, !.w = t, !.ch = EmptyFn, !.pub = {}, !.gpub = @ \cup st.pub,
                           !.grave = [x \in DOMAIN st.grave \cup DOMAIN st.ch |-> IF x \in DOMAIN st.ch THEN st.ch[x] ELSE st.grave[x]]])
       [] op.op = "del"   -> IF a \in DOMAIN st.ch
-                            THEN W([st EXCEPT !.ok = TRUE, !.w = t, !.ch = Drop(@, a), !.grave = Put(@, a, st.ch[a]), !.pub = @ \ {a}])
+                            THEN W([st EXCEPT !.ok = TRUE, !.w = t, !.ch = Drop(@, a), !.grave = Put(@, a, st.ch[a]), !.pub = @ \ {a},
+                                                !.gpub = IF a \in st.pub THEN @ \cup {a} ELSE @])
                             ELSE W([st EXCEPT !.ok = TRUE, !.w = t])
       [] op.op = "new"   -> IF a \in DOMAIN st.ch THEN [st |-> st, wr |-> FALSE, sf |-> FALSE]
                             ELSE LET c == IF a \in DOMAIN st.grave THEN st.grave[a] ELSE Fresh(sh.el)
                                  IN  W([st EXCEPT !.ok = TRUE, !.w = t, !.grave = Drop(@, a), !.ch = Put(@, a, c),
-                                                  !.pub = IF HasValue(sh.el, ValOf(sh.el, c)) THEN @ \cup {a} ELSE @])
+                                                  \* a resurrected key is a member again if it was one when it was erased
+                                                  !.pub = IF a \in st.gpub \/ HasValue(sh.el, ValOf(sh.el, c)) THEN @ \cup {a} ELSE @,
+                                                  !.gpub = @ \ {a}])
 
 RECURSIVE ApplyAt(_, _, _, _, _)
 ApplyAt(sh, st, path, op, t) ==
@@ -124,7 +127,8 @@ ApplyAt(sh, st, path, op, t) ==
                   r    == ApplyAt(sh.el, c0, Tail(path), op, t)
                   wr   == r.wr \/ ~live
               IN  [st |-> [st EXCEPT !.ch = Put(@, p, r.st), !.grave = Drop(@, p), !.ok = @ \/ wr,
-                                     !.pub = IF HasValue(sh.el, ValOf(sh.el, r.st)) THEN @ \cup {p} ELSE @,
+                                     !.pub = IF (~live /\ p \in st.gpub) \/ HasValue(sh.el, ValOf(sh.el, r.st)) THEN @ \cup {p} ELSE @,
+                                     !.gpub = @ \ {p},
                                      !.w = IF wr THEN t ELSE @, !.soft = IF r.sf THEN t ELSE @],
                    wr |-> wr, sf |-> r.sf]
          ELSE LET r == ApplyAt(ChSh(sh, p + 1), st.ch[p + 1], Tail(path), op, t)
